@@ -99,7 +99,7 @@ def c05(tier):
 
 def c15(tier):
     jobs = []
-    combos = [(0, 6, 1), (1, 6, 1), (1, 6, 2), (2, 8, 1)] if tier == "quick" else [(0, 6, 1), (0, 6, 2), (1, 6, 1), (1, 6, 2), (2, 6, 1), (2, 8, 2)]
+    combos = [(0, 6, 1), (1, 6, 1), (1, 6, 2), (2, 8, 1)] if tier == "quick" else [(0, 6, 1), (0, 6, 2), (1, 6, 1), (1, 6, 2), (2, 6, 1), (2, 8, 1)]
     for c in combos:
         jobs.append(Job("h_tree::tree_stage", c, {}, budget_s=3000, validate=40))
     s2 = [(4, 1, 0), (4, 1, 1)] if tier == "quick" else [(4, 1, 0), (4, 2, 0), (4, 1, 1), (6, 2, 1)]
